@@ -46,6 +46,7 @@ verus! {
 // `impl<E: Error> From<ProcessDataError> for BBIProcessError<E>`: the conversion behind `start_processing(..)?` and
 // `do_process(..).await?`, extracted as a free function.
 //@extract method bigtools/src/bbi/bbiwrite.rs from "From<ProcessDataError> for BBIProcessError"
+//@rule R16
 //@sub /fn from\(value: ProcessDataError\) -> Self/ => fn pde_into(value: ProcessDataError) -> BBIProcessError min=1
 //@end
 
@@ -284,6 +285,7 @@ pub open spec fn tlog(base: Seq<Event>, q: Seq<Item>, n: int, pn: Seq<u8>, c: Se
 // (shadowed by `let mut` copies in the body), which a loop invariant cannot name.
 #[verifier::loop_isolation(false)]
 //@extract method bigtools/src/bbi/beddata.rs process_to_bbi "BBIDataSource for BedParserParallelStreamingIterator"
+//@rule R16
 //@as chrom_task
 //@presub /\A.*?runtime\s*\.\s*spawn\(\s*async move \{/ => fn chrom_task(stream: BedFileStream, p: Proc, curr_chrom: Name, env: &mut Env) -> Result<Proc, BBIProcessError> { min=1 count=1
 //@presub /\}\);\s*queued_reads\.push.*\Z/ => } min=1 count=1
@@ -603,6 +605,7 @@ fn ioe_into(e: IoErr) -> (r: BBIProcessError) ensures r == BBIProcessError::IoEr
 
 impl BedParserParallelStreamingIterator {
 //@extract method bigtools/src/bbi/beddata.rs new "impl<V> BedParserParallelStreamingIterator<V>"
+//@rule R16
 //@sub /Parser<V>/ => ParserFn min=1
 //@sub /PathBuf/ => VPath min=1
 //@sub /\bString\b/ => Name min=1
@@ -620,6 +623,7 @@ impl BedParserParallelStreamingIterator {
 spec fn ix(&self) -> Seq<Entry> { file_order(self.chrom_indices@) }
 
 //@extract method bigtools/src/bbi/beddata.rs process_to_bbi "BBIDataSource for BedParserParallelStreamingIterator"
+//@rule R16
 //@presub /fn process_to_bbi<.*?>\(\s*&mut self,.*?\) -> Result<\(\), BBIProcessError<Self::Error>> \{/ => fn process_to_bbi(&mut self, runtime: &Runtime, env: &mut Env) -> Result<(), BBIProcessError> { min=1 count=1
 //@presub /runtime\s*\.\s*spawn\(\s*async move \{.*\}\)(;\s*queued_reads\.)/ => runtime.spawn(chrom_task(stream, p, curr_chrom, env))\1 min=1 count=1
 //@rule R1
